@@ -176,7 +176,14 @@ func captureStdout(f func()) string {
 func CliRepeat() {
 	p, cleanup := newCliProject()
 	defer cleanup()
+	// optionally a first task without file dependencies that runs every time, before a: the
+	// skipped task's entry must not carry anything of the task reported before it (a seeded
+	// change that declared the per-task results outside the loop went unnoticed, DESIGN.md 9.5)
+	withPrep := sym.Bool("with_prep")
 	text := "task a(\"data.txt\") {\n\t" + cmdText("cmdA1", 0) + "\n}\n"
+	if withPrep {
+		text = "task prep() {\n\t" + cmdText("cmdP", 0) + "\n}\ntask a(prep, \"data.txt\") {\n\t" + cmdText("cmdA1", 0) + "\n}\n"
+	}
 	p.put("proj/spokfile", text)
 	p.put("proj/data.txt", "data")
 	p.chdir(p.root)
@@ -209,7 +216,11 @@ func CliRepeat() {
 		}
 		wantSkipped := round == 1 && !edit
 		if !wantSkipped {
-			checkJSON(procOut, []cmdSpec{{"a", "cmdA1", 0}})
+			if withPrep {
+				checkJSON(procOut, []cmdSpec{{"prep", "cmdP", 0}, {"a", "cmdA1", 0}})
+			} else {
+				checkJSON(procOut, []cmdSpec{{"a", "cmdA1", 0}})
+			}
 			continue
 		}
 		sym.Reach("C20/skipped-in-report")
@@ -221,11 +232,32 @@ func CliRepeat() {
 			}
 			res, _ := stubs.JSONValues[0].(task.Results)
 			for _, r := range res {
-				got = append(got, jsonTask{Task: r.Task, Skipped: r.Skipped, Results: make([]jsonCmd, len(r.CommandResults))})
+				jt := jsonTask{Task: r.Task, Skipped: r.Skipped}
+				for _, c := range r.CommandResults {
+					jt.Results = append(jt.Results, jsonCmd{c.Cmd, c.Stdout, c.Stderr, c.Status})
+				}
+				got = append(got, jt)
 			}
 		} else if err := json.Unmarshal([]byte(procOut), &got); err != nil {
 			sym.Violation("C20/json-report-wrong", "not a JSON document: "+err.Error())
 			return
+		}
+		if withPrep {
+			// prep ran (it has nothing to be up to date with), then a was skipped
+			if len(got) != 2 {
+				sym.Violation("C20/skipped-task-missing-from-or-wrong-in-the-report", "wrong number of tasks")
+				return
+			}
+			ok := got[0].Task == "prep" && !got[0].Skipped && len(got[0].Results) == 1
+			sym.Assert(ok, "C20/json-report-wrong")
+			if ok {
+				c := got[0].Results[0]
+				sym.Assert(c.Cmd == cmdText("cmdP", 0) && c.Stdout == "out:cmdP\n" && c.Stderr == "err:cmdP\n" && c.Status == 0, "C20/json-report-wrong")
+			}
+			sym.Observe("skipped-entry-commands", len(got[1].Results))
+			sym.Assert(got[1].Task == "a" && got[1].Skipped, "C20/skipped-task-missing-from-or-wrong-in-the-report")
+			sym.Assert(len(got[1].Results) == 0, "C20/skipped-task-reported-with-commands-it-did-not-run")
+			continue
 		}
 		ok := len(got) == 1 && got[0].Task == "a" && got[0].Skipped && len(got[0].Results) == 0
 		sym.Assert(ok, "C20/skipped-task-missing-from-or-wrong-in-the-report")
